@@ -13,7 +13,8 @@
                   constructed / destroyed together by create_block / delete_block) and life-cycle status `bst`;
                   per table: life-cycle status `tst` (speculative / current / retiring / listed / freed / dead),
                   time of the CAS that superseded it, time and number of frees; `stale` (a retire CAS pushed
-                  a stamp read in an earlier time unit than the head value it finally beat: DESIGN F4);
+                  a stamp read in an earlier time unit than the head value it finally beat: DESIGN F4 - proved
+                  impossible since fix 8cef5d9 re-reads the clock in every round of the push loop);
                   `uaf` (reads of freed block tables: (table, clock when the pointer was obtained, clock of
                   the read)).
    Abstractions : allocator never reuses an address (table/node ids are fresh: no pointer ABA);
@@ -297,20 +298,24 @@ Definition step_thread (s : st) (t : nat) (th : thread) : option st :=
     let ts := stamp_at c0 in
     let neww := make_head (node_addr old) ts in
     if expire (hword s) ts then Some (upd_thread s t (goto th (RetStrong old nt (hword s) (hnodes s) neww c0 c0)))
-    else Some (upd_thread s t (goto th (RetWeak old nt (hword s) (hnodes s) neww c0 c0)))
+    else (* first round of the do-loop body: node->next = get_node(head); clock re-read; new_head rebuilt *)
+      Some (upd_thread s t (goto th (RetWeak old nt (hword s) (hnodes s) (retry_new_head (node_addr old) (stamp_at c0)) c0 c0)))
   | RetStrong old nt hw hn neww c0 hclk =>                 (* node->next = nullptr; compare_exchange_strong *)
     if head_is s hw hn then
       let s1 := with_head s neww [old] (stale s) in
       let s2 := with_mem s1 (cur s1) (free_tables (set_nth old (set_tst (table s old) TListed) (tables s1)) hn (clock s))
                          (bctor s1) (bdtor s1) (bst s1) in
       Some (upd_thread s2 t (finish_op th (complete s2 (the_op th) nt)))
-    else Some (upd_thread s t (goto th (RetWeak old nt (hword s) (hnodes s) neww c0 (clock s))))
-  | RetWeak old nt hw hn neww c0 hclk =>                   (* node->next = get_node(head); compare_exchange_weak *)
+    else (* head reloaded by the failed CAS; loop body: next = get_node(head), clock re-read, new_head rebuilt *)
+      Some (upd_thread s t (goto th (RetWeak old nt (hword s) (hnodes s)
+                                             (retry_new_head (node_addr old) (stamp_at (clock s))) (clock s) (clock s))))
+  | RetWeak old nt hw hn neww c0 hclk =>                   (* compare_exchange_weak(head, new_head) *)
     if head_is s hw hn then
       let s1 := with_head s neww (old :: hn) (stale s || (current_unit c0 <? current_unit hclk)) in
       let s2 := with_mem s1 (cur s1) (set_nth old (set_tst (table s old) TListed) (tables s1)) (bctor s1) (bdtor s1) (bst s1) in
       Some (upd_thread s2 t (finish_op th (complete s2 (the_op th) nt)))
-    else Some (upd_thread s t (goto th (RetWeak old nt (hword s) (hnodes s) neww c0 (clock s))))
+    else Some (upd_thread s t (goto th (RetWeak old nt (hword s) (hnodes s)
+                                                (retry_new_head (node_addr old) (stamp_at (clock s))) (clock s) (clock s))))
   | GcCas hw hn c1 =>                                      (* compare_exchange_strong(head, 0) *)
     if head_is s hw hn then
       let s1 := with_head s gc_new_head [] (stale s) in
